@@ -98,7 +98,7 @@ Proof.
   - (* indices are kept by the layout *)
     clear - K Hidx. revert Hidx. generalize 0. induction K as [|s s' t t' Hk HK IH]; intros i Hi; [exact I|].
     cbn [indexed_from] in *. destruct Hi as [Hi1 Hi2]. split; [|now apply IH].
-    destruct Hk as [->| ->]; [exact Hi1|cbn; exact Hi1].
+    destruct Hk as [->|[_ ->]]; [exact Hi1|cbn; exact Hi1].
   - exists pos'. rewrite Hh'.
     assert (F1 : e_ehsize (hdr_set (hdr_prep h0 (wrap16 (lenN (el_secs el)))) HShoff (pos' + (16 - pos' mod 16))) = e_ehsize h0) by (destruct h0; reflexivity).
     assert (F2 : e_shentsize (hdr_set (hdr_prep h0 (wrap16 (lenN (el_secs el)))) HShoff (pos' + (16 - pos' mod 16))) = e_shentsize h0) by (destruct h0; reflexivity).
